@@ -1,5 +1,6 @@
 import PrefVerif.Driver.Util
 import PrefVerif.Spec.Ordinal
+import PrefVerif.Model.OrdinalStats
 open Lean PrefVerif PrefVerif.Driver PrefVerif.Ordinal
 
 namespace PrefVerif.Driver.C02
@@ -25,6 +26,8 @@ def stateJson (s : OrdState) (hist : List Op) : Json :=
     ("flattenStrict", toJson (flattenStrict s)),
     ("isStrict", toJson (isStrict s)), ("isComplete", toJson (isComplete s)),
     ("largestBallot", toJson (largestBallot s)), ("smallestBallot", toJson (smallestBallot s)),
+    ("maxNumIndif", toJson (maxNumIndif s)), ("minNumIndif", toJson (minNumIndif s)),
+    ("largestIndif", toJson (largestIndif s)), ("smallestIndif", toJson (smallestIndif s)),
     ("sanity", toJson (sanityOrders s)),
     -- specification side: the multiset of votes added so far and what follows from it
     ("specVotes", toJson (Spec.countVotes v)),
